@@ -31,6 +31,9 @@ func c01(p *Prog, r *Report) {
 		c20Pad(p, r, R6, pad)
 		c20Unpad(p, r, R6, unpad)
 	}
+	const R8 = "C01.registry-keys-agree"
+	r.Rule(R8, "every table held in a struct field (origin index keys, attester maps, batch issuer lists) is stored and looked up under the same spelling of its key (function chain applied to the key, conversions and proven decoders aside)", 2)
+	registryKeysAgree(p, r, R8)
 	const R7 = "C01.varint-length-prefixes-exact"
 	r.Rule(R7, "type 5 and batch messages carry QUIC-varint length prefixes: encoder and decoder are exact inverses with the shortest form (the rules of C19, evaluated here as one obligation per rule)", 5)
 	c19AsSubRule(p, r, R7)
